@@ -15,7 +15,7 @@ ASSUMPTIONS = ['author-pinned ok values are outside the claim (the property exem
 BOUNDS = {'quick': 'lists of 2 (full credits) and 3 (interior) entries, 2 answer alternatives with symbolic partial credit, samples <= 2, all standardize_cfn_return input forms',
           'thorough': 'lists of 3 full-credit entries, grouped/nested lists, samples 3'}
 OUTSIDE = ['IntegralGrader (scipy absent)', 'author-pinned ok', 'IEEE rounding of products', 'arbitrary unicode garbage as formula input (parse totality is C02/C03)']
-DEADLINE = {'quick': 150, 'thorough': 1500}
+DEADLINE = {'quick': 600, 'thorough': 1500}
 FUNCS = ['AbstractGrader.__call__', 'AbstractGrader.grade_decimal_to_ok', 'AbstractGrader.apply_attempt_based_credit', 'AbstractGrader.format_messages',
          'ItemGrader.standardize_cfn_return', 'ItemGrader.validate_single_answer', 'ItemGrader.check', 'listgrader.consolidate_grades',
          'listgrader.consolidate_single_return', 'SingleListGrader.process_grade_list', 'ListGrader.check/perform_check/ungroupify_list',
